@@ -48,20 +48,27 @@ def gen(seed, tier):
     for i in range(40 if tier == "quick" else 400):
         o = {"U": 1} if i % 2 else {}
         segs = []
+        used = []
+
+        def mk(df, a):
+            if df in (0, 4, 5):
+                return g.f_short(df, a)
+            if df == 11:
+                return g.f_df11(a)
+            if df in (17, 18):
+                return g.f_df17(a, g.me_random_tc(), df=df)
+            return g.f_long(df, a)
         for _ in range(4):
             f, n, c = r.choice(bl)
             a = r.choice([f, f + n - 1, f + r.randrange(n), (f + n) & 0xFFFFFF or 1, r.getrandbits(24) or 1])
-            first = r.choice([0, 4, 5, 11, 16, 17, 18, 18, 20, 21])
-            def mk(df):
-                if df in (0, 4, 5):
-                    return g.f_short(df, a)
-                if df == 11:
-                    return g.f_df11(a)
-                if df in (17, 18):
-                    return g.f_df17(a, g.me_random_tc(), df=df)
-                return g.f_long(df, a)
-            segs.append(seg(0, [mk(first)]))
-            segs.append(seg(0, [mk(r.choice([4, 5, 11, 17, 18, 20]))]))
+            used.append(a)
+            segs.append(seg(0, [mk(r.choice([0, 4, 5, 11, 16, 17, 18, 18, 20, 21]), a)]))
+            segs.append(seg(0, [mk(r.choice([4, 5, 11, 17, 18, 20]), a)]))
+        # ... and after silences (the row is kept: no sweep runs in these one-line reader runs): the country is still there
+        t = 0
+        for _ in range(3):
+            t += r.choice([500, 29500, 31000, 45000, 59000, 120000])
+            segs.append(seg(t, [mk(r.choice([4, 5, 11, 17, 18, 20, 21]), r.choice(used))]))
         cases.append(H("C17-h%d" % i, o, segs))
     # the code as SHOWN in the table row (kind D renders rows): every block is visited, the blocks with a five-letter code
     # (ICAO1 / ICAO2) and unallocated addresses in every case
